@@ -33,7 +33,7 @@ ASSUMPTIONS = ["the reference channel is convert(dict) on canonical text; it is 
                "Markdown and CSV cannot carry blank rows or typed cells: they are compared on the noise-free workbook",
                "Excel date cells, formulas and rich text are outside the statement and not generated"]
 BUDGET = {"quick": 2800, "thorough": 60000}
-REQUIRED_LABELS = ["container:md", "container:csv", "container:xlsx", "container:xls", "container:xlsm",
+REQUIRED_LABELS = ["lone-sheet", "container:md", "container:csv", "container:xlsx", "container:xls", "container:xlsm",
                    "delivery:path", "delivery:pathlike", "delivery:bytes", "delivery:bytesio", "delivery:file", "delivery:text",
                    "file_type:explicit", "file_type:implicit",
                    "noise:typed-int", "noise:typed-intfloat", "noise:typed-float", "noise:typed-bool", "noise:pad", "noise:nbsp",
@@ -42,7 +42,7 @@ REQUIRED_LABELS = ["container:md", "container:csv", "container:xlsx", "container
 
 NBSP = "\xa0"
 INT_RE = re.compile(r"^-?(0|[1-9][0-9]{0,14})$")
-NUMTEXT = ["5", "0", "-3", "12", "2024", "1.5", "-0.25", "0.125", "3.75", "100000", "TRUE", "FALSE", "7", "42", "0.5", "1000000.5",
+NUMTEXT = ["0.00001", "0.000025", "-0.00007", "5", "0", "-3", "12", "2024", "1.5", "-0.25", "0.125", "3.75", "100000", "TRUE", "FALSE", "7", "42", "0.5", "1000000.5",
            "123456789012345"]
 NOISES = ["typed", "pad", "nbsp", "trailing-rows", "trailing-cols", "blank-rows", "blank-cols", "header-pad"]
 
@@ -126,6 +126,12 @@ def _cases(draw):
             near += ["entites", "entitie"]
         if near:
             form["extra_sheets"] = list(form.get("extra_sheets", [])) + [g.pick(near)]
+    if g.p("_", 0.06):
+        # a workbook with one sheet of any name: that sheet is the survey sheet (documented), in every container
+        keep = [n for n in form["nodes"] if n["k"] == "q" and n["c"].get("type", "").split(" ")[0] in ("text", "integer", "decimal", "note", "date")
+                and not any("${" in v for v in n["c"].values() if isinstance(v, str))]
+        if keep:
+            form = {"nodes": keep, "args": form.get("args", {}), "sheet_names": {"survey": g.pick(["Sheet1", "Feuil1", "my form", "Survey 2"])}}
     form = _sanitize(form)
     form["_langs"] = langs
     kinds = [k for k in NOISES if g.p("_", 0.45)] or [g.pick(NOISES)]
@@ -155,7 +161,9 @@ def typed_value(r, text):
         f = float(text)
     except ValueError:
         return None, None
-    if repr(f) == text and "e" not in text and "n" not in text and "." in text:
+    import decimal
+    # the shortest decimal spelling (never exponent notation: a text format would not spell 0.00001 as 1e-05)
+    if "e" not in text and "n" not in text and "." in text and format(decimal.Decimal(repr(f)), "f") == text:
         return f, "typed-float"
     return None, None
 
@@ -168,6 +176,8 @@ def make_grids(sheets, spec, out_labels):
     seed, kinds = spec["seed"], set(spec["noise"])
     ref_rows = []
     grids = []
+    colmap = {}
+    text_sheets = []
     for name, head, rows in sheets:
         r0 = rnd(seed, "sheet", name)
         rows = [dict(r) for r in rows]
@@ -186,6 +196,8 @@ def make_grids(sheets, spec, out_labels):
         else:
             with_blank = rows
         ref_rows.append((name, head, with_blank))
+        text_rows = [dict(r) for r in with_blank]
+        text_sheets.append((name, head, text_rows))
         # columns: optional header-less blank columns inside the header
         cols = list(head)
         if "blank-cols" in kinds and len(cols) > 1 and r0.random() < 0.7:
@@ -195,6 +207,7 @@ def make_grids(sheets, spec, out_labels):
             out_labels.add("noise:blank-cols")
             if k == 20:
                 out_labels.add("noise:blank-cols-20")
+        colmap[name] = list(cols)
         hrow = []
         for h in cols:
             if h is None:
@@ -227,6 +240,7 @@ def make_grids(sheets, spec, out_labels):
                     p = rr.choice(j)
                     v = v[:p] + NBSP + v[p + 1:]
                     out_labels.add("noise:nbsp")
+                    text_rows[i][h] = v       # the text containers carry the same non-breaking space
                 if "pad" in kinds and rr.random() < 0.4:
                     v = rr.choice(PADS + [""]) + v + rr.choice(PADS)
                     out_labels.add("noise:pad")
@@ -244,6 +258,8 @@ def make_grids(sheets, spec, out_labels):
                 g.append([r0.choice([None, None, "", "  ", NBSP]) for _ in range(r0.randrange(0, w + 1))])
             out_labels.add("noise:trailing-rows")
         grids.append((name, g))
+    make_grids.colmap = colmap
+    make_grids.text_sheets = text_sheets
     return ref_rows, grids
 
 
@@ -251,8 +267,11 @@ def dict_workbook(sheets, extra=None):
     """[(name, head, rows)] -> the documented dict input (rows list their cells in header order)"""
     wb = {}
     names = []
+    lone = len(sheets) == 1 and sheets[0][0].lower() not in ("survey", "choices", "settings", "external_choices", "entities", "osm")
     for name, head, rows in sheets:
         names.append(name)
+        if lone:
+            name = "survey"     # the only sheet of a workbook is its survey sheet, whatever it is called
         if name not in ("survey", "choices", "settings", "external_choices", "entities", "osm"):
             continue
         wb[name] = [{h: r[h] for h in head if h in r} for r in rows]
@@ -396,6 +415,10 @@ def _evaluate(case) -> Outcome:
     ref_sheets, grids = make_grids(sheets, spec, labels)
     blame = "+".join(sorted(spec["noise"])) if len(spec["noise"]) <= 1 else "several"
     blank_rows = "noise:blank-rows" in labels
+    blank_cols = "noise:blank-cols" in labels
+    colmap = make_grids.colmap
+    text_sheets = make_grids.text_sheets      # the sheets with blank rows and in-text non-breaking spaces, for the text containers
+    nbsp = "noise:nbsp" in labels
 
     def reference(sh, stem):
         extra = {"fallback_form_name": stem} if stem is not None else None
@@ -414,6 +437,8 @@ def _evaluate(case) -> Outcome:
         out.label("reference:crash:" + crash_sig(r0))
         return out
     out.label("reference:" + s0)
+    if len(sheets) == 1 and sheets[0][0].lower() != "survey":
+        out.label("lone-sheet")
     if s0 == "ok" and r0.itemsets:
         out.label("has-itemsets")
     if s0 == "ok" and r0.warnings:
@@ -458,9 +483,9 @@ def _evaluate(case) -> Outcome:
                 try:
                     # the text containers carry the blank rows too (rows without any cell), not the other kinds of noise
                     if base == "md":
-                        payloads[base] = render.md_of_sheets(ref_sheets if blank_rows else sheets).encode("utf-8")
+                        payloads[base] = render.md_of_sheets(text_sheets, cols=colmap if blank_cols else None).encode("utf-8")
                     elif base == "csv":
-                        payloads[base] = render.csv_of_sheets(ref_sheets if blank_rows else sheets).encode("utf-8")
+                        payloads[base] = render.csv_of_sheets(text_sheets, cols=colmap if blank_cols else None).encode("utf-8")
                     elif base == "xlsx":
                         payloads[base] = grids_to_xlsx(grids)
                     else:
@@ -479,7 +504,7 @@ def _evaluate(case) -> Outcome:
                 out.label("stem:other")
             pairs.add((cont, how))
             where = f"{cont}|{how}|{'explicit' if explicit else 'implicit'}"
-            tagbase = f"{base}|{blame if noisy else 'blank-rows' if blank_rows else '-'}"
+            tagbase = f"{base}|{blame if noisy else '+'.join(x for x, on in (('blank-rows', blank_rows), ('blank-cols', blank_cols), ('nbsp', nbsp)) if on) or '-'}"
             _compare(out, status, res, sr, rr_, where, tagbase, base, used, form)
     finally:
         shutil.rmtree(tmp, ignore_errors=True)
